@@ -11,6 +11,15 @@ package c06
 //   * oracle activity at the moment x/feeds looks: x/oracle status before the block plus MsgActivate txs that
 //     succeeded in the block (deactivation only happens inside the feeds end blocker, after the collection);
 //   * current feeds and their intervals: the CurrentFeeds store (C07's subject), total bonded tokens: x/staking.
+//
+// Governance: "propose" / "vote" ops carry a feeds MsgUpdateParams through a real x/gov proposal (voting period 2 s),
+// as ordinary transactions of ordinary blocks, so every block of the proposal's life is checked like any other. The
+// freshness window stays what the statement and x/feeds/README.md say - "within the acceptance period (1 interval)"
+// of the FEED, i.e. the interval stored with the current feed - whatever the parameters in force are: feeds and
+// their intervals are only re-calculated every CurrentFeedsUpdateInterval blocks, so after MaxInterval was lowered
+// a current feed keeps an interval above MaxInterval until the next re-calculation. The parameters the model tracks
+// (applied when x/gov reports the proposal as passed; the gov end blocker runs before the feeds one) are used for
+// statistics only, never for the expected price.
 
 import (
 	"fmt"
@@ -25,6 +34,7 @@ import (
 	sdkmath "cosmossdk.io/math"
 
 	sdk "github.com/cosmos/cosmos-sdk/types"
+	govv1 "github.com/cosmos/cosmos-sdk/x/gov/types/v1"
 	stakingtypes "github.com/cosmos/cosmos-sdk/x/staking/types"
 
 	feedstypes "github.com/bandprotocol/chain/v3/x/feeds/types"
@@ -44,8 +54,19 @@ type c06SigPrice struct {
 	Price uint64 `json:"p"`
 }
 
+// c06Gov: the fields of the feeds parameters a proposal changes; 0 = keep the value in force.
+type c06Gov struct {
+	MaxInterval int64 `json:"max_interval,omitempty"`
+	MinInterval int64 `json:"min_interval,omitempty"`
+	Step        int64 `json:"step,omitempty"`
+	MaxFeeds    int64 `json:"max_feeds,omitempty"`
+	Cooldown    int64 `json:"cooldown,omitempty"`
+	Grace       int64 `json:"grace,omitempty"`
+}
+
 type c06Op struct {
-	K      string        `json:"k"` // submit | activate | delegate | undelegate | end
+	K      string        `json:"k"` // submit | activate | delegate | undelegate | propose | vote | end
+	Gov    *c06Gov       `json:"gov,omitempty"`
 	Val    int           `json:"val,omitempty"`
 	TsOff  int64         `json:"tsoff,omitempty"` // msg.Timestamp - block time
 	Prices []c06SigPrice `json:"prices,omitempty"`
@@ -151,10 +172,128 @@ func genC06Chain(rt *rapid.T) c06ChainCase {
 	}
 	c.Replica = gen.Chance(rt, "replica", 1, 5)
 
-	nops := rapid.IntRange(25, 90).Draw(rt, "nops")
+	// generator-side belief about chain height and the parameters in force (exact for the height: sim.New commits
+	// block 1, the activation block is 2, every "end" op and the final flush are one block each)
+	h := int64(2)
+	gMin, gMax, gStep := c.MinInterval, c.MaxInterval, c06Step
+	interval := func(sig int) int64 {
+		f := c.SigFactor[sig] * c06Step / gStep
+		if f < 1 {
+			f = 1
+		}
+		iv := gMax / f
+		if iv < gMin {
+			iv = gMin
+		}
+		return iv
+	}
 	submitted := map[int]bool{}
+	end := func(dt int) {
+		if dt < 1 {
+			dt = 1
+		}
+		c.Ops = append(c.Ops, c06Op{K: "end", Dt: dt})
+		submitted = map[int]bool{}
+		h++
+	}
+	// governance lowers MaxInterval below the interval of a current feed in the middle of a current-feeds period, with
+	// reports whose age lies in (new MaxInterval, feed interval] when the change takes effect. All ordinary ops.
+	lowerMaxInterval := func() bool {
+		iv := int64(0)
+		for i, k := 0, gen.Uniform(rt, "gsig", nsig); i < nsig; i++ { // a feed with interval >= 2, starting at a random one
+			if x := interval((k + i) % nsig); x >= 2 && (iv < 2 || gen.Chance(rt, "gsigalt", 1, 3)) {
+				iv = x
+			}
+		}
+		if iv < 2 {
+			return false
+		}
+		m := int64(gen.Range(rt, "gmax", 1, int(iv-1)))
+		if len(c.Ops) > 0 && c.Ops[len(c.Ops)-1].K != "end" || gen.Chance(rt, "gcool", 1, 2) {
+			end(int(c.Cooldown)) // earlier reports of this block out of the way, cooldown over
+		}
+		if (h+3)%c.UpdateEvery == 0 { // the block in which the change takes effect must not re-calculate the feeds
+			end(1)
+		}
+		for i := 0; i < n; i++ {
+			if gen.Chance(rt, "grep", 5, 6) {
+				c.Ops = append(c.Ops, genC06Submit(rt, nsig, i, c.Discrepancy))
+			}
+		}
+		c.Ops = append(c.Ops, c06Op{K: "propose", Gov: &c06Gov{MaxInterval: m}})
+		end(1)
+		if gen.Chance(rt, "glate", 1, 3) { // some validators report one block later
+			for i, k := 0, gen.Range(rt, "glaten", 1, 2); i < k; i++ {
+				c.Ops = append(c.Ops, genC06Submit(rt, nsig, gen.Uniform(rt, "val", n), c.Discrepancy))
+			}
+		}
+		c.Ops = append(c.Ops, c06Op{K: "vote"})
+		end(1)
+		// the reports of the proposal block are 1+d old when the proposal passes: d in [m, iv-1] <=> age in (m, iv]
+		d := gen.Range(rt, "gdt", int(m), int(iv-1))
+		switch gen.Pick(rt, "gdtk", 6, 2, 2) {
+		case 1:
+			d = int(m) // age = new MaxInterval + 1
+		case 2:
+			d = int(iv - 1) // age = feed interval
+		}
+		end(d)
+		gMax = m
+		for k := gen.Pick(rt, "gmore", 4, 3, 2); k > 0; k-- {
+			end(1)
+		}
+		return true
+	}
+	// any other change of the feeds parameters
+	changeParams := func() {
+		g := &c06Gov{}
+		for k := 1 + gen.Pick(rt, "gnf", 3, 1); k > 0; k-- {
+			switch gen.Pick(rt, "gfield", 30, 14, 12, 10, 8, 8) {
+			case 0:
+				g.MaxInterval = gen.OneOf[int64](rt, "gmaxv", 2, 3, 6, 12, 30, 60, 120)
+			case 1:
+				g.MinInterval = gen.OneOf[int64](rt, "gminv", 1, 2, 3, 5, 10)
+			case 2:
+				g.Step = gen.OneOf[int64](rt, "gstep", c06Step/2, c06Step, 2*c06Step, 3*c06Step)
+			case 3:
+				g.MaxFeeds = gen.OneOf[int64](rt, "gfeeds", 1, 2, 300)
+			case 4:
+				g.Cooldown = gen.OneOf[int64](rt, "gcoolv", 1, 2, 3)
+			default:
+				g.Grace = gen.OneOf[int64](rt, "ggrace", 1, 3, 30, 1000)
+			}
+		}
+		c.Ops = append(c.Ops, c06Op{K: "propose", Gov: g})
+		end(1)
+		voted := gen.Chance(rt, "gvote", 9, 10) // else: no quorum, the proposal is rejected
+		if voted {
+			c.Ops = append(c.Ops, c06Op{K: "vote"})
+		}
+		end(1)
+		end(gen.Range(rt, "gdt2", 1, 3))
+		if voted {
+			if g.MaxInterval > 0 {
+				gMax = g.MaxInterval
+			}
+			if g.MinInterval > 0 {
+				gMin = g.MinInterval
+			}
+			if g.Step > 0 {
+				gStep = g.Step
+			}
+		}
+	}
+
+	nops := rapid.IntRange(25, 90).Draw(rt, "nops")
+	scenarioAt := -1
+	if gen.Chance(rt, "gscen", 2, 5) {
+		scenarioAt = gen.Uniform(rt, "gscenat", nops)
+	}
 	for i := 0; i < nops; i++ {
-		switch gen.Pick(rt, "opw", 22, 26, 32, 6, 5, 4, 5) {
+		if i == scenarioAt && lowerMaxInterval() {
+			continue
+		}
+		switch gen.Pick(rt, "opw", 44, 52, 64, 12, 10, 8, 10, 3) {
 		case 0: // burst: several validators report in the same block (=> equal timestamps)
 			k := rapid.IntRange(2, n).Draw(rt, "burst")
 			start := gen.Uniform(rt, "start", n)
@@ -177,18 +316,9 @@ func genC06Chain(rt *rapid.T) c06ChainCase {
 		case 2:
 			dt := gen.OneOf(rt, "dt", 1, 1, 1, 2, 3)
 			if gen.Chance(rt, "dtint", 1, 3) { // around a feed interval
-				f := c.SigFactor[gen.Uniform(rt, "dtsig", nsig)]
-				iv := c.MaxInterval / f
-				if iv < c.MinInterval {
-					iv = c.MinInterval
-				}
-				dt = int(iv) + gen.Range(rt, "dtd", -1, 1)
-				if dt < 1 {
-					dt = 1
-				}
+				dt = int(interval(gen.Uniform(rt, "dtsig", nsig))) + gen.Range(rt, "dtd", -1, 1)
 			}
-			c.Ops = append(c.Ops, c06Op{K: "end", Dt: dt})
-			submitted = map[int]bool{}
+			end(dt)
 		case 3:
 			c.Ops = append(c.Ops, c06Op{K: "activate", Val: gen.Uniform(rt, "val", n)})
 		case 4:
@@ -200,6 +330,11 @@ func genC06Chain(rt *rapid.T) c06ChainCase {
 			for j := 0; j < n; j++ {
 				c.Ops = append(c.Ops, c06Op{K: "activate", Val: j})
 			}
+		case 7:
+			if gen.Chance(rt, "glower", 1, 3) && lowerMaxInterval() {
+				continue
+			}
+			changeParams()
 		}
 	}
 	return c
@@ -211,7 +346,19 @@ type c06Report struct {
 	st    int
 	price uint64
 	ts    int64
+	// the validator sent a later report while this signal was not a current feed. x/feeds keeps "the latest price of
+	// each signal ID of Current feeds" only, the documents do not say when exactly the older report is dropped: the
+	// model does not decide (feeds it matters for are not compared while the report would still be fresh)
+	ambiguous bool
 }
+
+type c06Proposal struct {
+	id     uint64
+	params feedstypes.Params
+	gov    c06Gov
+}
+
+const c06GovVoting = 2 * time.Second
 
 func c06Reason(log string) string {
 	for _, k := range []string{"not active", "not bonded validator", "too early", "invalid timestamp", "not supported", "too large"} {
@@ -301,7 +448,7 @@ func runC06Chain(c c06ChainCase) *pbt.Verdict {
 	for i := range vals {
 		vals[i] = sim.ValSpec{Tokens: c.Tokens[i]}
 	}
-	cfg := sim.Config{NumAccounts: 2, Validators: vals, Oracle: &op, Feeds: &fp,
+	cfg := sim.Config{NumAccounts: 2, Validators: vals, Oracle: &op, Feeds: &fp, GovVoting: c06GovVoting,
 		FeedsVotes: []feedstypes.Vote{feedstypes.NewVote(sim.NewAccount("user0").Addr.String(), sigs)}}
 	ch, err := sim.New(cfg, 0)
 	if err != nil {
@@ -331,6 +478,9 @@ func runC06Chain(c c06ChainCase) *pbt.Verdict {
 		model[i] = map[string]c06Report{}
 	}
 	var pending []c06Op
+	curParams := fp              // the feeds parameters in force (statistics and building the next proposal only)
+	var proposals []*c06Proposal // in their voting period
+	feedSetFree := false         // a passed proposal changed which signals qualify as current feeds
 	nontrivial := false
 	stat := map[string]int64{}
 	classes := map[string]bool{}
@@ -345,8 +495,13 @@ func runC06Chain(c c06ChainCase) *pbt.Verdict {
 		for i, a := range ch.Vals {
 			activeBefore[i] = ch.App.OracleKeeper.GetValidatorStatus(pre, a.Val).IsActive
 		}
+		preFeeds := map[string]bool{} // the current feeds the transactions of this block see
+		for _, f := range ch.App.FeedsKeeper.GetCurrentFeeds(pre).Feeds {
+			preFeeds[f.SignalID] = true
+		}
 		var txs [][]byte
 		var ops []c06Op
+		var proposed []*c06Proposal // parallel to ops (nil for other ops)
 		undelegating := make([]sdkmath.Int, n)
 		for i := range undelegating {
 			undelegating[i] = sdkmath.ZeroInt()
@@ -393,11 +548,59 @@ func runC06Chain(c c06ChainCase) *pbt.Verdict {
 				}
 				undelegating[o.Val%n] = undelegating[o.Val%n].Add(amt)
 				msg = stakingtypes.NewMsgUndelegate(a.Addr.String(), a.Val.String(), sdk.NewCoin("uband", amt))
+			case "propose":
+				if o.Gov == nil {
+					stat["op_inapplicable"]++
+					continue
+				}
+				g, p := *o.Gov, curParams
+				if g.MaxInterval > 0 {
+					p.MaxInterval = g.MaxInterval
+				}
+				if g.MinInterval > 0 {
+					p.MinInterval = g.MinInterval
+				}
+				if g.Step > 0 {
+					p.PowerStepThreshold = g.Step
+				}
+				if g.MaxFeeds > 0 {
+					p.MaxCurrentFeeds = uint64(g.MaxFeeds)
+				}
+				if g.Cooldown > 0 {
+					p.CooldownTime = g.Cooldown
+				}
+				if g.Grace > 0 {
+					p.GracePeriod = g.Grace
+				}
+				a = ch.Vals[0]
+				m, err := govv1.NewMsgSubmitProposal([]sdk.Msg{&feedstypes.MsgUpdateParams{Authority: sim.GovAuthority(), Params: p}},
+					sdk.NewCoins(sdk.NewInt64Coin("uband", 10)), a.Addr.String(), "", "feeds params", "c06", false)
+				if err != nil {
+					v.Failf("harness", "NewMsgSubmitProposal: %v", err)
+					return false
+				}
+				txs = append(txs, ch.SignTx(a, m))
+				ops = append(ops, o)
+				proposed = append(proposed, &c06Proposal{params: p, gov: g})
+				continue
+			case "vote": // every validator operator votes yes on every proposal in its voting period
+				if len(proposals) == 0 {
+					stat["op_inapplicable"]++
+				}
+				for _, pr := range proposals {
+					for _, va := range ch.Vals {
+						txs = append(txs, ch.SignTx(va, govv1.NewMsgVote(va.Addr, pr.id, govv1.OptionYes, "")))
+						ops = append(ops, c06Op{K: "votetx"})
+						proposed = append(proposed, nil)
+					}
+				}
+				continue
 			default:
 				continue
 			}
 			txs = append(txs, ch.SignTx(a, msg))
 			ops = append(ops, o)
+			proposed = append(proposed, nil)
 		}
 		pending = nil
 		res, err := ch.Block(txs, time.Duration(dt)*time.Second)
@@ -430,17 +633,67 @@ func runC06Chain(c c06ChainCase) *pbt.Verdict {
 			stat["tx_ok_"+o.K]++
 			switch o.K {
 			case "submit":
+				for id, r := range model[o.Val%n] {
+					if !preFeeds[id] {
+						r.ambiguous = true
+						model[o.Val%n][id] = r
+					}
+				}
 				for _, p := range o.Prices {
 					model[o.Val%n][c06SigName(p.Sig%(nsig+1))] = c06Report{st: p.St, price: p.Price, ts: now}
 				}
 			case "activate":
 				activated[o.Val%n] = true
+			case "propose":
+				pr := proposed[i]
+				for _, ev := range res.Resp.TxResults[i].Events {
+					if ev.Type == "submit_proposal" && sim.Attr(ev, "proposal_id") != "" {
+						fmt.Sscan(sim.Attr(ev, "proposal_id"), &pr.id)
+					}
+				}
+				if pr.id == 0 {
+					v.Failf("harness", "no proposal id in the events of an accepted MsgSubmitProposal at height %d", res.Height)
+					return false
+				}
+				proposals = append(proposals, pr)
 			}
 		}
+		// proposals decided in this block (x/gov's end blocker runs before x/feeds')
+		ctx := ch.Ctx()
+		var open []*c06Proposal
+		for _, pr := range proposals {
+			p, err := ch.App.GovKeeper.Proposals.Get(ctx, pr.id)
+			if err != nil {
+				v.Failf("harness", "proposal %d: %v", pr.id, err)
+				return false
+			}
+			switch p.Status {
+			case govv1.StatusVotingPeriod, govv1.StatusDepositPeriod:
+				open = append(open, pr)
+			case govv1.StatusPassed:
+				if pr.params.PowerStepThreshold != curParams.PowerStepThreshold || pr.params.MaxCurrentFeeds != curParams.MaxCurrentFeeds {
+					feedSetFree = true
+				}
+				if pr.params.MaxInterval < curParams.MaxInterval {
+					classes["gov-max-interval-lowered"] = true
+				}
+				if pr.params.MaxInterval > curParams.MaxInterval {
+					classes["gov-max-interval-raised"] = true
+				}
+				if pr.gov.MinInterval > 0 || pr.gov.Step > 0 || pr.gov.MaxFeeds > 0 || pr.gov.Cooldown > 0 || pr.gov.Grace > 0 {
+					classes["gov-other-param-changed"] = true
+				}
+				curParams = pr.params
+				classes["gov-params-changed"] = true
+				stat["gov_params_changed"]++
+			default:
+				stat["gov_proposal_not_passed"]++
+			}
+		}
+		proposals = open
 		stat["deactivations"] += int64(len(sim.Events(res.Resp, oracletypes.EventTypeDeactivate)))
 
 		// what the model says the feeds module must have seen
-		ctx := ch.Ctx()
 		type bval struct {
 			i      int
 			tokens *big.Int
@@ -463,7 +716,7 @@ func runC06Chain(c c06ChainCase) *pbt.Verdict {
 		lastBonded = tbt.BigInt()
 		quorumRounded := new(big.Int).Mul(quorum, c06E18).Cmp(new(big.Int).Mul(tbt.BigInt(), qE18)) != 0
 		cf := ch.App.FeedsKeeper.GetCurrentFeeds(ctx)
-		if len(cf.Feeds) != nsig {
+		if !feedSetFree && len(cf.Feeds) != nsig {
 			v.Failf("harness", "expected %d current feeds at height %d, store has %d", nsig, res.Height, len(cf.Feeds))
 			return false
 		}
@@ -494,6 +747,8 @@ func runC06Chain(c c06ChainCase) *pbt.Verdict {
 			}
 			var lo, hi uint64
 			prices := map[uint64]bool{}
+			var clamped []ref.FeedEntry // the reports that are also fresh for the MaxInterval parameter in force
+			undecided := false
 			for _, b := range bonded {
 				if !(activeBefore[b.i] || activated[b.i]) {
 					continue
@@ -502,7 +757,14 @@ func runC06Chain(c c06ChainCase) *pbt.Verdict {
 				if !ok || r.ts < now-feed.Interval {
 					continue
 				}
+				if r.ambiguous {
+					undecided = true
+					break
+				}
 				entries = append(entries, ref.FeedEntry{Status: r.st, Power: b.tokens, Price: r.price, Time: r.ts})
+				if r.ts >= now-curParams.MaxInterval {
+					clamped = append(clamped, entries[len(entries)-1])
+				}
 				if r.st == ref.FeedEntryAvailable {
 					if len(prices) == 0 || r.price < lo {
 						lo = r.price
@@ -513,7 +775,25 @@ func runC06Chain(c c06ChainCase) *pbt.Verdict {
 					prices[r.price] = true
 				}
 			}
+			if undecided {
+				stat["feed_not_compared_report_from_before_signal_left_current_feeds"]++
+				continue
+			}
+			if feed.Interval > curParams.MaxInterval {
+				classes["feed-interval>max-interval"] = true
+				stat["feed_interval_above_max_interval"]++
+				if len(clamped) < len(entries) {
+					classes["price-age-in-(max,interval]"] = true
+					stat["price_age_in_(max,interval]"] += int64(len(entries) - len(clamped))
+				}
+			}
 			wst, wpr, wok, info, bnd := ref.FeedPrice(entries, quorum)
+			if len(clamped) < len(entries) {
+				if cst, cpr, cok, _, _ := ref.FeedPrice(clamped, quorum); cok != wok || cst != wst || cpr != wpr {
+					classes["price-age-in-(max,interval] decides the result"] = true
+					stat["price_age_in_(max,interval]_decides"]++
+				}
+			}
 			got := ch.App.FeedsKeeper.GetPrice(ctx, feed.SignalID)
 			if !wok {
 				// quorum 0 and nobody reporting: the statement cannot be met; the block normally fails before we get here
